@@ -523,6 +523,11 @@ func queryFace(ft *font.Font, w func(a ...any), seed uint64, focus []uint16) {
 	for k := 0; k < 5; k++ {
 		gids = append(gids, font.GID(next()%4096))
 	}
+	for k, g := range focus {
+		if k < 8 {
+			gids = append(gids, font.GID(g))
+		}
+	}
 	queryGlyphs := func() {
 		for _, g := range gids {
 			w(face.HorizontalAdvance(g), face.VerticalAdvance(g))
@@ -1033,11 +1038,67 @@ func genTagCase(seed int64, k int, files []*corpus.File) *Case {
 	return &Case{File: site.file.ID, Kind: "tag-systematic-field", Edits: []Edit{{Off: o, Data: data}}, Note: fmt.Sprintf("%s+%d", tagStr(tg), off)}
 }
 
+// sbixDupeCycle turns one or two glyph records of an 'sbix' strike into 'dupe' records
+// ("use the graphic of glyph N") that reference themselves or each other.
+func sbixDupeCycle(site tagSite, r *gen.RNG) *Case {
+	b := site.file.Bytes()
+	maxp, ok := findTable(site.file, 0x6d617870)
+	t := site.t
+	if !ok || maxp.off+6 > len(b) || t.length < 12 {
+		return nil
+	}
+	ng := u16(b, maxp.off+4)
+	ns := u32(b, t.off+4)
+	if ns == 0 || ns > 64 {
+		return nil
+	}
+	st := t.off + u32(b, t.off+8+4*r.Intn(ns))
+	if st+4+4*(ng+1) > t.off+t.length {
+		return nil
+	}
+	var big []int
+	for g := 0; g < ng && g < 70000; g++ {
+		if u32(b, st+4+4*(g+1))-u32(b, st+4+4*g) >= 10 {
+			big = append(big, g)
+		}
+	}
+	if len(big) == 0 {
+		return nil
+	}
+	g := big[r.Intn(len(big))]
+	target := g
+	if r.Chance(1, 3) && len(big) > 1 {
+		target = big[r.Intn(len(big))]
+	}
+	rec := func(g, to int) []Edit {
+		o := st + u32(b, st+4+4*g)
+		return []Edit{{Off: o + 4, Data: []byte("dupe")}, {Off: o + 8, Data: put16(uint16(to))}}
+	}
+	c := &Case{File: site.file.ID, Kind: "sbix-dupe-cycle", Focus: []uint16{uint16(g), uint16(target)},
+		Edits: rec(g, target), Note: fmt.Sprintf("sbix glyph %d is a dupe of glyph %d", g, target)}
+	if target != g {
+		c.Edits = append(c.Edits, rec(target, g)...)
+	}
+	for _, e := range c.Edits {
+		if e.Off+len(e.Data) > len(b) {
+			return nil
+		}
+	}
+	return c
+}
+
 // recursion mutants: a composite glyph that includes itself, and a CFF global
 // subroutine that calls itself (as last instruction, and followed by return).
 func genRecursionCase(seed int64, k int, files []*corpus.File) *Case {
 	buildTagIndex(files)
 	r := gen.New(seed, "C09/recursion", k)
+	if k%8 == 7 {
+		if sites := tagIndex[0x73626978]; len(sites) > 0 { // sbix
+			if c := sbixDupeCycle(sites[(k/8)%len(sites)], r); c != nil {
+				return c
+			}
+		}
+	}
 	if k%2 == 0 {
 		sites := tagIndex[0x676c7966] // glyf
 		if len(sites) > 0 {
@@ -1464,7 +1525,12 @@ func GenCase(seed int64, idx int, files []*corpus.File) *Case {
 			return genLayoutCase(seed, idx/32, files)
 		default:
 			if (idx/32)%2 == 0 {
-				return genChildCountCase(seed, idx/64, files)
+				if (idx/64)%16 == 5 {
+				if c := genCaretDeviceCase(seed, idx/1024, files); c != nil {
+					return c
+				}
+			}
+			return genChildCountCase(seed, idx/64, files)
 			}
 			return genCFFDictCase(seed, idx/64, files)
 		}
